@@ -19,11 +19,15 @@ type histOp struct {
 	Kind int // 0 Resolve, 1 Validate, 2 Marshal
 	R    int // which earlier Resolve result (index modulo those available)
 	Inst int
+	VD   bool // Resolve with ValidateDefaults
 }
 
 func (o histOp) String() string {
 	switch o.Kind {
 	case 0:
+		if o.VD {
+			return "Resolve(ValidateDefaults)"
+		}
 		return "Resolve"
 	case 1:
 		return fmt.Sprintf("Validate(R%d,inst%d)", o.R, o.Inst)
@@ -120,7 +124,7 @@ func driveC14(c *Ctx) {
 	for len(ops) < nops {
 		switch k := c.W(6); {
 		case k == 0:
-			ops = append(ops, histOp{Kind: 0})
+			ops = append(ops, histOp{Kind: 0, VD: c.W(3) == 0})
 		case k == 1:
 			ops = append(ops, histOp{Kind: 2})
 		default:
@@ -163,7 +167,7 @@ func driveC14(c *Ctx) {
 			case 0:
 				var res *jsonschema.Resolved
 				var err error
-				opts := &jsonschema.ResolveOptions{}
+				opts := &jsonschema.ResolveOptions{ValidateDefaults: op.VD}
 				var calls []string // the sequence of loader requests is an observable effect of Resolve
 				if uni != nil {
 					opts.BaseURI = uni.BaseURI
@@ -189,6 +193,9 @@ func driveC14(c *Ctx) {
 					d += fmt.Sprintf(" loader requests %v", calls)
 				}
 				sig = "resolve"
+				if op.VD {
+					sig = "resolve-vd"
+				}
 			case 1:
 				if len(rs) == 0 {
 					vec = append(vec, "skip")
